@@ -271,8 +271,12 @@ impl ProgressBar {
 
     /// Update the `ProgressBar`'s inner [`ProgressState`]
     pub fn update(&self, f: impl FnOnce(&mut ProgressState)) {
-        self.state()
-            .update(Instant::now(), f, self.ticker.lock().unwrap().is_none());
+        // Look at the ticker slot *before* locking the state: waiting for the ticker slot while
+        // holding the state lock inverts the lock order of `enable_steady_tick()` and
+        // `disable_steady_tick()`, which join the ticker thread (that needs the state lock)
+        // while holding the ticker slot.
+        let tick = self.ticker.lock().unwrap().is_none();
+        self.state().update(Instant::now(), f, tick);
     }
 
     /// Sets the position of the progress bar
